@@ -97,3 +97,35 @@ CHECKS["C06"] = dict(
     design_ref="DESIGN.md 4 C06",
     assumptions=["reference simplex is correct", "integer variables are boxed, so enumeration is complete"],
 )
+
+CHECKS["C18"] = dict(
+    title="Termination analysis returns only genuine ranking functions; methods agree",
+    quick=T([("c18_termination", 1)], cases=9000, secs=50),
+    thorough=T([("c18_termination", 1)], cases=250000, secs=600, flavour="san"),
+    rule="case = loop relation over 1-3 variables (C / NNC polyhedra, BD shapes, octagons, boxes; single-pset and before/after forms): planted "
+         "terminating loops (affine f with f >= 0 and f - f' >= 1 added), planted non-terminating loops (fixpoint / 2-cycle), random relations "
+         "(empty, equalities, strict, unbounded); oracle = exact LP validity of every returned ranking function / sampled member of mu_space, and "
+         "an independent Farkas feasibility system for the verdict (refgeom, no PPL). Non-trivial: non-empty, non-universe relation with n >= 2.",
+    technique="property-based testing (planted and random loop relations, exact LP witness validation, Farkas-system verdict oracle)",
+    level_text="Generated-input exploration with exact witness validation and an independent existence oracle for affine ranking functions.",
+    level_note="n <= 3 variables; coefficients small (some ~2^70); reference LP trusted.",
+    design_ref="DESIGN.md 4 C18",
+    assumptions=["reference LP (ref/refgeom.hh) is correct"],
+)
+
+CHECKS["C19"] = dict(
+    title="Watchdog/weight timeouts fire once, in order, never early, never after death",
+    quick=T([("c19_watchdog", 1)], cases=1600000, secs=40),
+    thorough=T([("c19_watchdog", 1)], cases=40000000, secs=500, flavour="san"),
+    rule="case = generated history of create(delay)/destroy/advance over <= 5 simultaneously alive Watchdog objects under a harness-owned "
+         "virtual timer (setitimer/getitimer/sigaction interposed at link time); the expiry is delivered between API calls or inside the "
+         "interposed system calls made while in_critical_section is set; oracle = model list in virtual time (at most once, never early, "
+         "never after destruction, deadline order, promptness within reschedule_time + injected stall, timer armed iff something pending); "
+         "25% of the cases exercise Threshold_Watcher<Weightwatch_Traits> (fires at the first check with the threshold exceeded, once, not otherwise). "
+         "Non-trivial: >= 2 overlapping watchdogs and an expiry inside a critical section or in the same second as another deadline.",
+    technique="property-based testing (stateful history generation with a harness-owned clock and signal schedule, model-based invariants)",
+    level_text="Generated-schedule exploration with a virtual kernel timer: every history is deterministic and replayable.",
+    level_note="Signals are injected at system-call boundaries inside the critical section and between API calls, not between arbitrary instructions; kernel timer accuracy assumed.",
+    design_ref="DESIGN.md 4 C19",
+    assumptions=["the kernel timer behaves as the virtual one-shot timer", "signal delivery points = system-call boundaries + between API calls"],
+)
